@@ -39,6 +39,13 @@ def run(ctx):
     em = E.EncoderModel(fb)
     E.rule_counter_writers(res, "C06-R6", em, reported=False)
     E.rule_counter_survives_encode(res, "C06-R6", em)
+    # ... and its own segment marks make the transition test meaningful: each message header the encoder writes carries exactly the segment type
+    # the flag table decided (C08-R1/R6) — a mark composed onto whatever the packet's flags held turns an intermediary segment into a `last`
+    # and the decoder delivers a message with a hole
+    res.rule("C06-R7", "the stream's segment marks are the protocol's: flag table of the builder and the stamping of every message header (C08-R1 / C08-R6, shared)")
+    E.rule_flag_table(res, "C06-R7", em)
+    E.rule_header_fully_stamped(res, "C06-R7", em)
+    res.floor("C06-R7", 4)
     res.floor("C06-R6", 6)
     res.floor("C06-R1", 20)
     res.floor("C06-R2", 4)
